@@ -15,7 +15,7 @@ FIELDS = ["artist", "artist", "track_no", "track", "track_name", "bogus"]
 OPS = [("lookup", 10), ("get_images", 9), ("search", 7), ("browse", 5), ("get_distinct", 4), ("refresh", 3),
        ("as_list", 3), ("get_items", 3), ("pl_lookup", 3), ("create", 4), ("save", 4), ("delete", 4),
        ("pl_refresh", 2), ("get_uri_schemes", 1), ("get_volume", 2), ("set_volume", 2), ("get_mute", 2),
-       ("set_mute", 2), ("construct", 1)]
+       ("set_mute", 2), ("construct", 1), ("core_schemes", 1)]
 EXPECTED_CLS = {"lookup_many": "track", "get_images": "image", "search": "search", "browse": "ref",
                 "root_directory": "ref", "get_distinct": "str", "as_list": "ref", "get_items": "ref",
                 "pl_lookup": "playlist", "create": "playlist", "save": "playlist"}
